@@ -29,3 +29,11 @@ void c05_rgb_gray(int simd, int cs, const u8 *rgb, u8 *y, unsigned width)
   if (simd) jsimd_rgb_gray_convert(&cc, in, planes, 0, 1);
   else rgb_gray_convert(&cc, in, planes, 0, 1);
 }
+
+void c05_rgb_ycc_rows(int simd, int cs, u8 **rgb, u8 **y, u8 **cb, u8 **cr, unsigned width, int nrows, int gray)
+{
+  JSAMPARRAY planes[3]; planes[0] = y; planes[1] = cb; planes[2] = cr;
+  cc.image_width = width; cc.in_color_space = (J_COLOR_SPACE)cs;
+  if (gray) { if (simd) jsimd_rgb_gray_convert(&cc, rgb, planes, 0, nrows); else rgb_gray_convert(&cc, rgb, planes, 0, nrows); }
+  else      { if (simd) jsimd_rgb_ycc_convert(&cc, rgb, planes, 0, nrows); else rgb_ycc_convert(&cc, rgb, planes, 0, nrows); }
+}
